@@ -1,4 +1,5 @@
 import TextxVerif.Proofs.RecSim
+import TextxVerif.Proofs.RecUnsep
 import TextxVerif.Wire  -- only so that building this module also builds what Drivers/Rec.lean needs
 import TextxVerif.Gen.Grammars
 /-!
@@ -98,6 +99,119 @@ theorem C24_agree_partial (L : Lex) (hL : LexOk hyps L) :
   C24_accept_iff langSide txoSide hyps depth rel relInv L C24_check.1 C24_check.2.1 C24_check.2.2.1
     C24_check.2.2.2 hL
 
+
+/-! ### from `unsep tx unproved` to `tx` itself: the follow-set fact as a checked hypothesis
+
+`NoTrailingSep g i L` (`Peg/RecX.lean`): at the repetition node `i = OneOrMore(k, sep=s)`, whenever the
+separator matches right after an element, the element does not fail after it.  Under this hypothesis
+`x+[s]` and `(x s)* x` are in simulation (rules `sepC` / `sepD` of `checkX`, proved sound for all graphs in
+`Proofs/RecUnsep.lean` by loop invariants relating the separator loop and the star loop). -/
+
+/-- **Soundness of the extended checker** (all graphs, relations, lexers, positions, fuel): as
+`C24_bisim_sound`, where the pairs listed in `exC` (`OneOrMore(z, sep=t)` on the left against
+`Sequence[ZeroOrMore(Sequence[z, t]), z]` on the right) and `exD` (the converse) are justified by
+`NoTrailingSep` at the repetition node. -/
+theorem C24_bisim_sound_sep (s₁ s₂ : Side) (H : Hyps) (d : Nat) (R : Rel) (L : Lex) (exC exD : List (Nat × Nat))
+    (hwf₁ : wfSh s₁.g H s₁.sh = true) (hwf₂ : wfSh s₂.g H s₂.sh = true)
+    (hchk : checkX s₁ s₂ H d R exC exD = true) (hL : LexOk H L)
+    (hC : ∀ ab, ab ∈ exC → NoTrailingSep s₁.g ab.1 L) (hD : ∀ ab, ab ∈ exD → NoTrailingSep s₂.g ab.2 L)
+    (x y : Nat) (hxy : inR s₁ s₂ d R x y = true) :
+    ∀ n c p, parse s₁.g L n x c p ≠ .fuel →
+      ∃ m₀, ∀ m, m₀ ≤ m → parse s₂.g L m y c p = parse s₁.g L n x c p :=
+  simX_sound hwf₁ hwf₂ hchk hL hC hD hxy
+
+/-- two checked simulations with exceptional pairs give equal acceptance and equal rejection -/
+theorem C24_accept_iff_sep (s₁ s₂ : Side) (H : Hyps) (d : Nat) (R R' : Rel) (L : Lex)
+    (exC exD exC' exD' : List (Nat × Nat))
+    (hwf₁ : wfSh s₁.g H s₁.sh = true) (hwf₂ : wfSh s₂.g H s₂.sh = true)
+    (h12 : checkX s₁ s₂ H d R exC exD = true) (h21 : checkX s₂ s₁ H d R' exC' exD' = true) (hL : LexOk H L)
+    (hC : ∀ ab, ab ∈ exC → NoTrailingSep s₁.g ab.1 L) (hD : ∀ ab, ab ∈ exD → NoTrailingSep s₂.g ab.2 L)
+    (hC' : ∀ ab, ab ∈ exC' → NoTrailingSep s₂.g ab.1 L) (hD' : ∀ ab, ab ∈ exD' → NoTrailingSep s₁.g ab.2 L) :
+    (accepts s₁.g L ↔ accepts s₂.g L) ∧ (rejects s₁.g L ↔ rejects s₂.g L) := by
+  have t12 := (checkX_base h12).2.1
+  have t21 := (checkX_base h21).2.1
+  constructor
+  · constructor
+    · rintro ⟨n, v, p, h⟩
+      obtain ⟨m, hm⟩ := simX_sound hwf₁ hwf₂ h12 hL hC hD t12 n false 0 (by rw [h]; simp)
+      exact ⟨m, v, p, by rw [hm m (Nat.le_refl _), h]⟩
+    · rintro ⟨n, v, p, h⟩
+      obtain ⟨m, hm⟩ := simX_sound hwf₂ hwf₁ h21 hL hC' hD' t21 n false 0 (by rw [h]; simp)
+      exact ⟨m, v, p, by rw [hm m (Nat.le_refl _), h]⟩
+  · constructor
+    · rintro ⟨n, h⟩
+      obtain ⟨m, hm⟩ := simX_sound hwf₁ hwf₂ h12 hL hC hD t12 n false 0 (by rw [h]; simp)
+      exact ⟨m, by rw [hm m (Nat.le_refl _), h]⟩
+    · rintro ⟨n, h⟩
+      obtain ⟨m, hm⟩ := simX_sound hwf₂ hwf₁ h21 hL hC' hD' t21 n false 0 (by rw [h]; simp)
+      exact ⟨m, by rw [hm m (Nat.le_refl _), h]⟩
+
+/-- `textx.tx` as compiled (the shape table of `unsep tx unproved` is also inductive for `tx`) -/
+def txSide : Side := ⟨tx, txoSh⟩
+/-- the exceptional pairs: every node of `unproved` against itself -/
+def unprovedPairs : List (Nat × Nat) := unproved.map fun i => (i, i)
+
+/-- the identity relation on the nodes of `tx` passes the extended checker between `tx` and
+`unsep tx unproved` in both directions, the nodes of `unproved` being the only exceptional pairs —
+kernel evaluation on the graph dumped from the tree under test -/
+theorem C24_check_tx :
+    wfSh txSide.g hyps txSide.sh = true ∧
+    checkX txSide txoSide hyps 0 (idRel tx.size) unprovedPairs [] = true ∧
+    checkX txoSide txSide hyps 0 (idRel tx.size) [] unprovedPairs = true := by
+  refine ⟨?_, ?_, ?_⟩ <;> decide +kernel
+
+/-- the rewriting `unsep` preserves acceptance and rejection of `tx` for every lexer without trailing
+separators at the rewritten nodes -/
+theorem C24_unsep_agree (L : Lex) (hL : LexOk hyps L) (hT : ∀ i, i ∈ unproved → NoTrailingSep tx i L) :
+    (accepts tx L ↔ accepts (unsep tx unproved) L) ∧ (rejects tx L ↔ rejects (unsep tx unproved) L) := by
+  have hP : ∀ ab, ab ∈ unprovedPairs → NoTrailingSep tx ab.1 L ∧ NoTrailingSep tx ab.2 L := by
+    intro ab hab
+    simp only [unprovedPairs, List.mem_map] at hab
+    obtain ⟨i, hi, rfl⟩ := hab
+    exact ⟨hT i hi, hT i hi⟩
+  exact C24_accept_iff_sep txSide txoSide hyps 0 (idRel tx.size) (idRel tx.size) L unprovedPairs [] [] unprovedPairs
+    C24_check_tx.1 C24_check.2.1 C24_check_tx.2.1 C24_check_tx.2.2 hL
+    (fun ab h => (hP ab h).1) (fun _ h => by simp at h) (fun _ h => by simp at h) (fun ab h => (hP ab h).2)
+
+/-- **C24, full statement about `textx.tx` itself** (not proved in this generality): for every lexer
+satisfying `hyps`, the grammar compiler's parser and the self-hosted grammar accept the same inputs and
+reject the same inputs. -/
+def C24_agree_tx_statement : Prop :=
+  ∀ L : Lex, LexOk hyps L → (accepts lang L ↔ accepts tx L) ∧ (rejects lang L ↔ rejects tx L)
+
+/-- **C24 for `textx.tx` itself (partial).**  For every lexer satisfying `hyps` and without a trailing
+separator at the two RREL repetitions (`NoTrailingSep tx i L` for `i ∈ unproved`: after `path ,` a path
+follows, after `part .` a part follows), the grammar compiler's parser (`lang.py`) and the parser
+compiled from `textx.tx` accept the same inputs and reject the same inputs.
+
+Missing for `C24_agree_tx_statement`: the inputs on which a separator is followed by something that is
+not an element (e.g. `A: b=[B|n|a.];`, see `C24_trailing_example`).  On those the two formulations of
+the repetition give different results *locally* (`C24_sep_forms_differ`, `C24_notrail_needed`); that
+both parsers nevertheless reject is a follow-set argument about the whole grammar and stays with the
+correspondence (the driver evaluates `tx` and `unsep tx unproved` on every generated text). -/
+theorem C24_agree_tx_partial (L : Lex) (hL : LexOk hyps L) (hT : ∀ i, i ∈ unproved → NoTrailingSep tx i L) :
+    (accepts lang L ↔ accepts tx L) ∧ (rejects lang L ↔ rejects tx L) := by
+  have h1 := C24_agree_partial L hL
+  have h2 := C24_unsep_agree L hL hT
+  exact ⟨h1.1.trans h2.1.symm, h1.2.trans h2.2.symm⟩
+
+/-- the bounded scan of the driver refutes the hypothesis when it evaluates to `false` -/
+theorem C24_notrail_scan (g : Graph) (i : Nat) (L : Lex) (F : Nat) (h : noTrailScanB g i L F = false) :
+    ¬ NoTrailingSep g i L := fun hn => by
+  rw [noTrailScan_of hn F] at h
+  exact absurd h (by simp)
+
+/-- the sufficient condition evaluated by the driver and in the examples below implies the hypothesis -/
+theorem C24_notrail_table (g : Graph) (i : Nat) (input : Array Char) (tbl : List (Nat × Nat × Nat)) (F : Nat)
+    (h : noTrailEndsB g i (Lex.ofTable input tbl) F (tableEnds tbl (sepTok g i)) = true) :
+    NoTrailingSep g i (Lex.ofTable input tbl) :=
+  noTrailTable_sound h
+
+/-- `lexOkTable` decides the lexer hypotheses for table lexers -/
+theorem C24_lexok_table (H : Hyps) (input : Array Char) (tbl : List (Nat × Nat × Nat))
+    (h : lexOkTable H input tbl = true) : LexOk H (Lex.ofTable input tbl) :=
+  lexOkTable_sound h
+
 /-! ### why the RREL separator repetitions are left to correspondence: the two formulations differ -/
 
 /-- `x+[s] s` as a parser model: 0 = Sequence[1, 3], 1 = OneOrMore(2, sep=3), 2 = 'x', 3 = 's' -/
@@ -121,6 +235,45 @@ theorem C24_sep_forms_differ : accepts sepGraph sepLex ∧ rejects (unsepNode se
     ¬ accepts (unsepNode sepGraph 1) sepLex := by
   have hr : rejects (unsepNode sepGraph 1) sepLex := ⟨10, by decide⟩
   exact ⟨⟨10, .T, 2, by decide⟩, hr, fun ha => C24_not_both _ _ ⟨ha, hr⟩⟩
+
+
+/-- the hypothesis `NoTrailingSep` of `C24_agree_tx_partial` cannot be dropped from the checker rule: the
+lexer of `C24_sep_forms_differ` violates it, and with it `x+[s] s` and `(x s)* x s` are related by `checkX` -/
+theorem C24_notrail_needed : ¬ NoTrailingSep sepGraph 1 sepLex ∧
+    checkX ⟨sepGraph, fun _ => [.T]⟩ ⟨unsepNode sepGraph 1, fun a => if a = 4 then [.E, .T] else [.T]⟩ ⟨[], []⟩ 0
+      (idRel 4) [(1, 1)] [] = true :=
+  ⟨C24_notrail_scan _ _ _ 10 (by decide), by decide⟩
+
+/-! ### non-vacuity: real grammar texts with their real token tables (`Gen/Grammars.lean`) -/
+
+/-- lexer of the text `A: b=[B|n|a.b,^c*]; // x⏎` (token table computed with Python's `re`) -/
+def exOkLex : Lex := Lex.ofTable exOkInput exOkTable
+/-- lexer of the text `A:b=[B|n|a.];` -/
+def exTrailLex : Lex := Lex.ofTable exTrailInput exTrailTable
+
+/-- all hypotheses of `C24_agree_tx_partial` hold for a real grammar text with RREL separator repetitions,
+whitespace and a comment, and both graphs accept it (`lang` by kernel evaluation, `tx` by the theorem) -/
+theorem C24_accepts_example : LexOk hyps exOkLex ∧ (∀ i, i ∈ unproved → NoTrailingSep tx i exOkLex) ∧
+    accepts lang exOkLex ∧ accepts tx exOkLex := by
+  have hL : LexOk hyps exOkLex := C24_lexok_table _ _ _ (by decide +kernel)
+  have hT : ∀ i, i ∈ unproved → NoTrailingSep tx i exOkLex := by
+    have hall : (unproved.all fun i => noTrailEndsB tx i exOkLex 60 (tableEnds exOkTable (sepTok tx i))) = true := by
+      decide +kernel
+    intro i hi
+    exact C24_notrail_table _ _ _ _ 60 (List.all_eq_true.mp hall i hi)
+  have ha : accepts lang exOkLex := ⟨400, .T, exOkInput.size, by decide +kernel⟩
+  exact ⟨hL, hT, ha, (C24_agree_tx_partial _ hL hT).1.mp ha⟩
+
+/-- a text with a trailing RREL separator: the lexer hypotheses hold, `NoTrailingSep` fails at the
+`parts+=RRELPathPart['.']` repetition (so `C24_agree_tx_partial` does not speak about it), and `lang`,
+`tx` and `unsep tx unproved` all reject it (kernel evaluation) -/
+theorem C24_trailing_example : LexOk hyps exTrailLex ∧ (∃ i, i ∈ unproved ∧ ¬ NoTrailingSep tx i exTrailLex) ∧
+    rejects lang exTrailLex ∧ rejects tx exTrailLex ∧ rejects (unsep tx unproved) exTrailLex := by
+  refine ⟨C24_lexok_table _ _ _ (by decide +kernel), ?_, ⟨400, by decide +kernel⟩, ⟨400, by decide +kernel⟩,
+    ⟨400, by decide +kernel⟩⟩
+  have hex : (unproved.any fun i => !noTrailScanB tx i exTrailLex 100) = true := by decide +kernel
+  obtain ⟨i, hi, hb⟩ := List.any_eq_true.mp hex
+  exact ⟨i, hi, C24_notrail_scan _ _ _ 100 (by simpa using hb)⟩
 
 /-! ### non-vacuity -/
 
